@@ -939,6 +939,18 @@ class OdeSystem(object):
             self.__events = []
         self.initialise_integrator(preserve_states=False)
 
+    def __at_target(self, tf):
+        """The current time is within a few rounding units (of the time axis, not of 1) of tf.
+
+        With an absolute tolerance a target of large magnitude can only be "reached" bit-exactly: t + (tf - t) may
+        round one ulp past tf, and the loop then takes a further step of one ulp in the opposite direction.
+        """
+        t_now = self.__t[self.counter]
+        dtype = self.__y[self.counter].dtype
+        # the absolute tolerance used so far, or a few ulps of the current time, whichever is larger
+        end_tol = D.ar_numpy.maximum(D.tol_epsilon(dtype), D.epsilon(dtype) * D.ar_numpy.abs(t_now))
+        return D.ar_numpy.abs(tf - t_now) < end_tol
+
     def integrate(self, t=None, callback=None, eta=False, events=None):
         """Integrates the system to a specified time.
 
@@ -985,7 +997,7 @@ class OdeSystem(object):
 
         # "already there" is judged with the tolerance the main loop below stops at: a gap the loop would not step over
         # must not get as far as clipping dt to half of that gap
-        if D.ar_numpy.abs(tf - self.__t[self.counter]) < D.tol_epsilon(self.__y[self.counter].dtype):
+        if self.__at_target(tf):
             return
         steps = 0
 
@@ -1034,7 +1046,7 @@ class OdeSystem(object):
         end_int = False
         self.__allocate_soln_space(total_steps)
         try:
-            while (implicit_integration or (self.dt != 0 and D.ar_numpy.abs(tf - self.__t[self.counter]) >= D.tol_epsilon(self.__y[self.counter].dtype))) and not end_int:
+            while (implicit_integration or (self.dt != 0 and not self.__at_target(tf))) and not end_int:
                 if not implicit_integration and D.ar_numpy.abs(self.dt) > D.ar_numpy.abs(tf - self.__t[self.counter]):
                     is_final_step = True
                     dt = (tf - self.__t[self.counter])
